@@ -136,13 +136,14 @@ Inductive st : Type :=
 | QErr.                                (* error token emitted; the rest of the input is dropped *)
 
 Definition step_normal (c : ascii) : st * list tok :=
-  if is_space c then (QN, [])
-  else if Ascii.eqb c "'" then (QStr EmptyString, [])
-  else if Ascii.eqb c "`" || Ascii.eqb c """" then (QId c EmptyString, [])
-  else if is_digit c then (QNumI (one c), [])
-  else if is_word c then (QWord (one c), [])
-  else if Ascii.eqb c "#" then (QHash, [])
-  else if punct1 c || Ascii.eqb c "!" then (QP c, [])
+  let n := cN c in
+  if (n =? 32)%N || in_rangeN n 9 13 then (QN, [])                      (* is_space *)
+  else if (n =? 39)%N then (QStr EmptyString, [])                       (* quote *)
+  else if (n =? 96)%N || (n =? 34)%N then (QId c EmptyString, [])       (* backquote, double quote *)
+  else if in_rangeN n 48 57 then (QNumI (one c), [])                    (* is_digit *)
+  else if in_rangeN n 97 122 || in_rangeN n 65 90 || (n =? 95)%N || (n =? 36)%N then (QWord (one c), [])
+  else if (n =? 35)%N then (QHash, [])                                  (* hash *)
+  else if punct1 c || (n =? 33)%N then (QP c, [])                       (* exclamation mark *)
   else (QErr, [TErr]).
 
 (* a token ends before byte c *)
@@ -224,7 +225,24 @@ Fixpoint after (q : st) (s : string) : st :=
 Fixpoint outs (q : st) (s : string) : list tok :=
   match s with EmptyString => [] | String c r => snd (step q c) ++ outs (fst (step q c)) r end.
 
+(* after and outs in one pass (ChLexProofs.trace_spec) *)
+Fixpoint trace (q : st) (s : string) : st * list tok :=
+  match s with
+  | EmptyString => (q, [])
+  | String c r => let '(q', o) := step q c in let '(q'', o') := trace q' r in (q'', (o ++ o')%list)
+  end.
+
 Definition lex (s : string) : list tok := run QN s.
+
+Definition st_eqb (a b : st) : bool :=
+  match a, b with
+  | QN, QN | QHash, QHash | QLine, QLine | QBlock, QBlock | QBlockS, QBlockS | QErr, QErr => true
+  | QWord x, QWord y | QNumI x, QNumI y | QNumF x, QNumF y | QNumE0 x, QNumE0 y | QNumE x, QNumE y
+  | QStr x, QStr y | QStrB x, QStrB y | QStrX x, QStrX y | QStrQ x, QStrQ y => String.eqb x y
+  | QP c, QP d => Ascii.eqb c d
+  | QStrX1 x c, QStrX1 y d | QId c x, QId d y | QIdB c x, QIdB d y | QIdQ c x, QIdQ d y => String.eqb x y && Ascii.eqb c d
+  | _, _ => false
+  end.
 
 (* a quote read in state q opens a string literal (q is not inside a literal, quoted identifier,
    comment, nor just behind a closing quote) *)
